@@ -67,6 +67,7 @@ def run(name, props, tier='quick'):
         rc, out = sh(['git', 'apply', '-3', patch], cwd='/repo')
         sh(['git', 'reset', '-q'], cwd='/repo')
     if rc != 0:
+        sh(['git', 'checkout', '--', '.'], cwd='/repo')
         print('PATCH DOES NOT APPLY', out[-500:])
         return None
     results = {}
